@@ -70,10 +70,11 @@ Section Proofs.
 
   Lemma step_saved st e st' sv b :
     step st e = (st', Some sv, b) ->
-    exists n, e = ENotify n /\ on_session st n = (st', Some sv).
+    exists n st1, ev_notif e = Some n /\ on_session st n = (st1, Some sv).
   Proof.
-    destruct e as [n|dc|]; cbn.
-    - destruct (on_session st n) as [s o] eqn:E. intros H; inversion H; subst. exists n; auto.
+    destruct e as [n|n dc|dc|]; cbn.
+    - destruct (on_session st n) as [s o] eqn:E. intros H; inversion H; subst. exists n, st'; auto.
+    - destruct (on_session st n) as [s [o|]] eqn:E; intros H; inversion H; subst. exists n, s; auto.
     - intros H; inversion H.
     - destruct (restore kvalid st); intros H; inversion H.
   Qed.
@@ -83,7 +84,7 @@ Section Proofs.
      open: ThisDC is the primary DC at that time, or one of the two is 0 *)
   Lemma saved_in_history : forall (h : list (@event K)) (st : @state K) (i : nat) (sv : @sess K),
     nth_error (snd (run st h)) i = Some (Some sv) ->
-    exists n, nth_error h i = Some (ENotify n) /\ n_h n = HRegular /\
+    exists e n, nth_error h i = Some e /\ ev_notif e = Some n /\ n_h n = HRegular /\
               sv = mkSess (n_dc n) (save_key n) (n_salt n) /\
               (n_dc n = 0 \/ s_dc (cur (state_at st h i)) = 0 \/ s_dc (cur (state_at st h i)) = n_dc n).
   Proof.
@@ -91,11 +92,11 @@ Section Proofs.
     - destruct i; discriminate.
     - rewrite run_cons in H. cbn [snd] in H. destruct i as [|i].
       + cbn in H. destruct (step st e) as [[st' o] b] eqn:E. cbn in H. inversion H; subst o.
-        destruct (step_saved _ _ _ _ _ E) as [n [-> Hn]].
+        destruct (step_saved _ _ _ _ _ E) as [n [st1 [He Hn]]].
         destruct (on_session_saved _ _ _ _ Hn) as [H1 [H2 [H3 _]]].
-        exists n; repeat split; auto. unfold state_at; cbn. apply guard_false_iff; exact H2.
-      + cbn [nth_error] in H. destruct (IH _ _ _ H) as [n [Hn [H1 [H2 H3]]]].
-        exists n; repeat split; auto.
+        exists e, n; repeat split; auto. unfold state_at; cbn. apply guard_false_iff; exact H2.
+      + cbn [nth_error] in H. destruct (IH _ _ _ H) as [e' [n [Hn [He [H1 [H2 H3]]]]]].
+        exists e', n; repeat split; auto.
         unfold state_at in *. cbn [firstn]. rewrite run_cons. cbn [fst]. exact H3.
   Qed.
 
@@ -109,7 +110,10 @@ Section Proofs.
   Lemma step_stored st e :
     stored (fst (fst (step st e))) = match snd (fst (step st e)) with Some s => Some s | None => stored st end.
   Proof.
-    destruct e as [n|dc|]; cbn.
+    destruct e as [n|n dc0|dc|]; cbn.
+    - destruct (on_session st n) as [st' [sv|]] eqn:E; cbn.
+      + apply on_session_saved in E; tauto.
+      + apply on_session_not_saved in E; tauto.
     - destruct (on_session st n) as [st' [sv|]] eqn:E; cbn.
       + apply on_session_saved in E; tauto.
       + apply on_session_not_saved in E; tauto.
@@ -127,16 +131,19 @@ Section Proofs.
   Definition nz_event (e : @event K) : Prop :=
     match e with
     | ENotify n => n_h n = HRegular -> n_dc n <> 0
+    | ENotifyMig n dc => (n_h n = HRegular -> n_dc n <> 0) /\ dc <> 0
     | EMigrate dc => dc <> 0
     | ERestore => True
     end.
 
   Lemma step_primary_nz st e : nz_event e -> s_dc (cur st) <> 0 -> s_dc (cur (fst (fst (step st e)))) <> 0.
   Proof.
-    destruct e as [n|dc|]; cbn; intros Hn Hc.
+    destruct e as [n|n dc0|dc|]; cbn; intros Hn Hc.
     - destruct (on_session st n) as [st' [sv|]] eqn:E; cbn.
       + apply on_session_saved in E. destruct E as [H1 [_ [_ [_ H5]]]]. rewrite H5; cbn; auto.
       + apply on_session_not_saved in E. destruct E as [_ H2]; rewrite H2; auto.
+    - destruct Hn as [Hn Hd]. destruct (on_session st n) as [st' [sv|]] eqn:E; cbn; auto.
+      apply on_session_not_saved in E. destruct E as [_ H2]; rewrite H2; auto.
     - auto.
     - unfold restore. destruct (stored st) as [sv|]; cbn; auto.
       destruct (kvalid (s_key sv)); cbn; auto.
@@ -156,9 +163,10 @@ Section Proofs.
     s_dc sv = s_dc (cur (state_at st h i)) /\ s_dc sv <> 0.
   Proof.
     intros h st i sv Hc Hh H.
-    destruct (saved_in_history _ _ _ _ H) as [n [Hn [H1 [-> H3]]]]. cbn.
+    destruct (saved_in_history _ _ _ _ H) as [e [n [Hn [He [H1 [-> H3]]]]]]. cbn.
     assert (Hnz : n_dc n <> 0).
-    { apply nth_error_In in Hn. rewrite Forall_forall in Hh. apply (Hh _ Hn); exact H1. }
+    { apply nth_error_In in Hn. rewrite Forall_forall in Hh. specialize (Hh _ Hn).
+      destruct e; cbn in He; inversion He; subst; cbn in Hh; [apply Hh|apply Hh]; exact H1. }
     assert (Hp : s_dc (cur (state_at st h i)) <> 0)
       by (unfold state_at; apply run_primary_nz; [apply Forall_firstn; exact Hh|exact Hc]).
     split; [lia|exact Hnz].
@@ -168,12 +176,12 @@ Section Proofs.
      DC (honest), the saved DC is the DC of the connection the key came from *)
   Lemma saved_is_connection_dc : forall (h : list (@event K)) (st : @state K) (i : nat) (sv : @sess K),
     nth_error (snd (run st h)) i = Some (Some sv) ->
-    exists n, nth_error h i = Some (ENotify n) /\ n_h n = HRegular /\
+    exists e n, nth_error h i = Some e /\ ev_notif e = Some n /\ n_h n = HRegular /\
               s_key sv = save_key n /\ s_salt sv = n_salt n /\
               (honest n -> s_dc sv = n_conn n).
   Proof.
-    intros h st i sv H. destruct (saved_in_history _ _ _ _ H) as [n [Hn [H1 [-> _]]]].
-    exists n; repeat split; auto.
+    intros h st i sv H. destruct (saved_in_history _ _ _ _ H) as [e [n [Hn [He [H1 [-> _]]]]]].
+    exists e, n; repeat split; auto.
   Qed.
   Lemma save_key_under_pfs n : n_pfs n = true -> pfs_has_perm kzero n -> save_key n = n_perm n.
   Proof. intros P E. apply (proj1 (save_key_pfs n)). apply E; exact P. Qed.
